@@ -317,6 +317,42 @@ def run_rect(ctx, spec):
                         geo.block_name_list[k:k + 3], back.block_name_list[k:k + 3], len(geo.block_name_list), len(back.block_name_list)), c)
                 else:
                     check_geometry_names(ctx, back, c, prefix='reread:')
+                # the same file as other programs (and hand editing) spell it: every node / column / layer name at the
+                # RIGHT of its 3-column field instead of at the left - the names are the same names
+                with open(fn) as fh:
+                    lines = fh.read().split('\n')
+                sec, out = None, []
+                for k, l in enumerate(lines):
+                    if k == 0:
+                        out.append(l)
+                        continue
+                    if sec is None:
+                        sec = l[:5].upper() if l.strip() else None
+                        out.append(l)
+                        continue
+                    if not l.strip():
+                        sec = None
+                        out.append(l)
+                        continue
+                    if sec in ('VERTI', 'GRID', 'GRID ', 'LAYER', 'SURFA'):
+                        l = l[:3].strip().rjust(3) + l[3:]
+                    elif sec == 'CONNE':
+                        l = l[:3].strip().rjust(3) + l[3:6].strip().rjust(3) + l[6:]
+                    out.append(l)
+                fn2 = os.path.join(ctx.tmp, 'c17_right.dat')
+                with open(fn2, 'w') as fh:
+                    fh.write('\n'.join(out))
+                with ctx.guard(c, where='file-right-aligned-names') as g3:
+                    back2 = mg.mulgrid(fn2)
+                if g3.raised is None:
+                    ctx.count('geometries_reread_with_right_aligned_names')
+                    if list(back2.block_name_list) != list(geo.block_name_list) or [x.name for x in back2.columnlist] != [x.name for x in geo.columnlist] or \
+                            [x.name for x in back2.nodelist] != [x.name for x in geo.nodelist]:
+                        bad = next(((a, b) for a, b in zip([x.name for x in geo.columnlist] + list(geo.block_name_list), [x.name for x in back2.columnlist] + list(back2.block_name_list)) if a != b), None)
+                        ctx.violation('names-change-with-alignment-in-file', 'names right-aligned in their file fields read back differently: %r (convention %d; %d vs %d block names)' % (
+                            bad, c['convention'], len(geo.block_name_list), len(back2.block_name_list)), c)
+                    else:
+                        check_geometry_names(ctx, back2, c, prefix='reread-right-aligned:')
 
 
 def check_geometry_names(ctx, geo, c, prefix=''):
@@ -536,6 +572,19 @@ def run_split(ctx, spec):
         with ctx.guard(c, where='refine', expected=(mg.NamingConventionError,)) as gd:
             geo.refine(chars=c['chars'])
         ctx.count('refinements_attempted')
+        # the same with new names that are filled up instead of padded with blanks (spaces=False): where it completes, the
+        # names are of the convention's length, distinct, and the new ones hold no blank
+        g2 = mg.mulgrid().rectangular([10.] * c['nx'], [10.] * c['ny'], [1.] * 2, convention=conv, chars=c['chars'], case=c['case'])
+        old_names = set(x.name for x in g2.columnlist) | set(x.name for x in g2.nodelist)
+        with ctx.guard(c, where='refine:spaces=False', expected=(mg.NamingConventionError,)) as gd2:
+            g2.refine(chars=c['chars'], spaces=False)
+        if gd2.raised is None:
+            ctx.count('refinements_without_spaces')
+            names2 = [x.name for x in g2.columnlist] + [x.name for x in g2.nodelist]
+            fresh = [x for x in names2 if x not in old_names]
+            if any(len(x) != length for x in names2) or len(set(x.name for x in g2.columnlist)) != g2.num_columns or len(set(x.name for x in g2.nodelist)) != g2.num_nodes or \
+                    any(' ' in x for x in fresh) or len(set(g2.block_name_list)) != len(g2.block_name_list):
+                ctx.violation('refine-names-malformed:spaces=False', 'after refine(spaces=False): names %r' % ([x for x in names2 if len(x) != length or (x in fresh and ' ' in x)][:4],), c)
         if gd.raised is None:
             if surely_fails:
                 ctx.violation('no-naming-error:refine', 'refine() completed though %d new nodes were needed and %d names were free' % (new_nodes, nodes_free), c)
